@@ -119,6 +119,15 @@ def ensure_facts(repo=None, verbose=True):
     return path, key
 
 
+# developer aid (tools/coverage.py): with VERIF_COVERAGE=<file prefix> set, the names of the function bodies a check fetched (to evaluate or inspect) are
+# written to <prefix>.<pid> at exit
+_COV = None
+if os.environ.get("VERIF_COVERAGE"):
+    import atexit
+    _COV = set()
+    atexit.register(lambda: open("%s.%d" % (os.environ["VERIF_COVERAGE"], os.getpid()), "w").write("\n".join(sorted(_COV))))
+
+
 class Facts:
     def __init__(self, path, key, repo):
         self.path, self.key, self.repo = path, key, repo
@@ -154,6 +163,8 @@ class Facts:
         v = self.fns.get(name)
         if not v:
             return None
+        if _COV is not None:
+            _COV.add(name)
         return self._sugar(v[0])
 
     def _sugar(self, r):
